@@ -3,7 +3,7 @@ import os
 
 from hypothesis import strategies as st
 
-from vlib import clock, programs
+from vlib import clock, locks, programs
 from vlib.driver import Outcome, newdir
 
 PROPERTY = 'C04'
@@ -33,6 +33,7 @@ def execute(case):
     out = Outcome()
     out.evals = 0
     clock.install()
+    locks.install()
     clock.reset()
     d = newdir()
     r = programs.StorageRunner(case['kind'], d, out, PROPERTY)
